@@ -236,8 +236,6 @@ class ExactGP(GP):
         except KeyError:
             fantasy_kwargs = {}
 
-        full_output = super().__call__(*full_inputs, **kwargs)
-
         # Copy model without copying training data or prediction strategy (since we'll overwrite those)
         old_pred_strat = self.prediction_strategy
         old_train_inputs = self.train_inputs
@@ -255,6 +253,10 @@ class ExactGP(GP):
             self.train_inputs = old_train_inputs
             self.train_targets = old_train_targets
             self.likelihood = old_likelihood
+
+        # The prior over the joint data is evaluated by the new model's own (copied) modules: the new strategy keeps
+        # the lazily evaluated kernel, which must not follow later changes to this model's hyperparameters
+        full_output = super(ExactGP, new_model).__call__(*full_inputs, **kwargs)
 
         new_model.likelihood = old_likelihood.get_fantasy_likelihood(**fantasy_kwargs)
         new_model.prediction_strategy = old_pred_strat.get_fantasy_strategy(
